@@ -25,6 +25,7 @@ def handle (line : String) : String :=
   | "join" :: rest => Asl.Drv.Join.handle rest
   | "tasks" :: rest => Asl.Drv.Tasks.handle rest
   | "crash" :: rest => Asl.Drv.Crash.handle rest
+  | "fanproto" :: rest => Asl.Drv.Fanproto.handle rest
   | "echo" :: [j] => match rd j with
     | some v => "ok\t" ++ js v
     | none => "unsupported"
